@@ -286,3 +286,249 @@ Example C03_alias_key_follows_nonvacuous :
            NMap (ct 0) [ (sk 1 "m", NMap (ct 2) [ (sk 3 "foo", sk 4 "bar"); (n, sk 6 "a") ]); (sk 7 "c", n) ]) /\
   List.length (abs_ops no_lit no_fl hist24b doc24) = 2%nat.
 Proof. vm_compute. repeat split. Qed.
+
+(* ======================================================================== *)
+(* END TO END with the read-side model (Model/Compose.v [ce_set] = the evaluator
+   of Model/Eval.v gathering, Mutate.set_value changing; Proofs/EvalSet.v).
+   The coordinates are no longer an input taken from the real library: they are
+   what the required / optional query of the evaluator model yields.
+
+   [ce_holds d loc s]      (Spec/C03e2e.v) the location loc = (identity of a
+                            container object of d, reference) holds the node s
+                            that the path semantics of Spec/SpecC01.v selects:
+                            indexing that object by the reference gives the node
+   [ce_set_spec .. locs st] the document C03's specification describes after
+                            changing the children at the locations locs one
+                            after the other: per location subst (designated ..)
+                            then ksubst (kdesignated ..) with the one node
+                            make_new_node built (the statement of C03_set_exact)
+   Guards, all computable, all inherited:
+     C01  c01_frag p (key, index, slice, anchor, search, *, **; no keyword, no
+          collector), the document is not null, the strict reading of the
+          specification marks nothing (F12a: descendant searches reaching
+          several nodes; places where the documentation is silent);
+     C02  slices_last (an array slice, whose result is a virtual list, may only
+          stand last) - and here ce_plain: no virtual result at all, every
+          selected result is a node of the document; ce_name_kw p = false (the
+          last segment is no [name()]: true of every parsed path of the fragment);
+     document  ce_doc_ok: every container object once (wf_docb), keys and set
+          members are leaves (ce_flat) and identities small (ce_small) - what
+          harness/docenc.py produces -, keys pairwise different (mkeys_distinct),
+          ruamel containers carry the anchor attribute (wf_attr);
+     C03  acts_ok along the run: every change addresses a node that is not a set
+          member and is ONE object (alias_clean) - no root, no [name()] rename. *)
+From YP Require Import PathParser Eval Compose SpecC01 EvalLocAll EvalSemTop C04delete EvalDelete C03e2e EvalSet.
+
+Theorem C03_set_end_to_end :
+  forall lit re_search nstr vstr kw_handler creator fl segs d value fmt vo,
+    let p := PPath segs in
+    let pcs := gathered lit re_search nstr vstr kw_handler creator p d in
+    let s0 := sv_start vo (init_state d) in
+    c01_frag p = true -> is_null_node d = false -> specified (sem_doc lit re_search nstr true p d) = true ->
+    slices_last segs = true -> ce_name_kw p = false -> ce_plain (sem_doc lit re_search nstr false p d) = true ->
+    ce_doc_ok d = true ->
+    (* the coordinates handed to _apply_change are the locations of exactly the selected nodes, in order *)
+    Forall2 (ce_holds d) (map pc_pair pcs) (sem_doc lit re_search nstr false p d) /\
+    (* nothing selected: the Unmatched YAML Path error; no change was applied *)
+    (sem_doc lit re_search nstr false p d = [] ->
+     ce_set lit re_search nstr vstr kw_handler creator fl true p d value fmt vo = CeRead (Err (YPE Unmatched))) /\
+    (* a completed call under C03's guard: the successive substitution at those locations; on plain data
+       one replacement-at-locations and one re-filing of alias keys per selected node *)
+    (acts_ok lit fl value (fst s0) (ce_acts fmt pcs) (snd s0) = true ->
+     forall st', ce_set lit re_search nstr vstr kw_handler creator fl true p d value fmt vo = CeDone st' ->
+       ce_set_spec lit fl value fmt (fst s0) (map pc_pair pcs) (snd s0) = Some st' /\
+       psteps (abs_actions lit fl value (fst s0) (ce_acts fmt pcs) (snd s0)) (erase d) (erase (fst st')) /\
+       wf_attr (fst st') = true).
+Proof. exact set_required_e2e. Qed.
+Print Assumptions C03_set_end_to_end.
+
+(* the read half alone (no guard of C03 needed): which coordinates set_value / _apply_change receive *)
+Theorem C03_gathered_locations_end_to_end :
+  forall lit re_search nstr vstr kw_handler creator segs d,
+    c01_frag (PPath segs) = true -> is_null_node d = false ->
+    specified (sem_doc lit re_search nstr true (PPath segs) d) = true ->
+    slices_last segs = true -> ce_plain (sem_doc lit re_search nstr false (PPath segs) d) = true ->
+    wf_doc d -> ce_flat d = true -> ce_small d = true -> mkeys_distinct d = true ->
+    Forall2 (ce_holds d) (map pc_pair (gathered lit re_search nstr vstr kw_handler creator (PPath segs) d))
+            (sem_doc lit re_search nstr false (PPath segs) d) /\
+    ce_coords false (fst (get_required lit re_search nstr vstr kw_handler creator (PPath segs) d))
+    = Some (map (fun c => CNode c false) (gathered lit re_search nstr vstr kw_handler creator (PPath segs) d)) /\
+    snd (get_required lit re_search nstr vstr kw_handler creator (PPath segs) d)
+    = match sem_doc lit re_search nstr false (PPath segs) d with [] => Err (YPE Unmatched) | _ => Done end.
+Proof. exact gathered_holds_sem. Qed.
+Print Assumptions C03_gathered_locations_end_to_end.
+
+(* set_value WITHOUT mustexist on a path that exists in every branch (opt_ok: at
+   no reached node does a creatable segment find nothing - C09's F16b) is the
+   mustexist=True call: same gather, same changes, no node created.  Any path. *)
+Theorem C03_set_optional_end_to_end :
+  forall lit re_search nstr vstr kw_handler creator fl segs d value fmt vo,
+    let p := PPath segs in
+    opt_ok lit re_search nstr vstr kw_handler creator (fuel_for p) segs 0 (RNode d) root_ctx = true ->
+    fst (get_required lit re_search nstr vstr kw_handler creator p d) <> [] ->
+    ce_set lit re_search nstr vstr kw_handler creator fl false p d value fmt vo
+    = ce_set lit re_search nstr vstr kw_handler creator fl true p d value fmt vo.
+Proof. exact set_optional_is_required. Qed.
+Print Assumptions C03_set_optional_end_to_end.
+
+(* a failing call (either route, any path): the changes before the failing one are complete, the failing one
+   changed nothing (C03_failure_is_clean through the composition) *)
+Theorem C03_set_failure_end_to_end :
+  forall lit re_search nstr vstr kw_handler creator fl mustexist p d value fmt vo st e,
+    ce_set lit re_search nstr vstr kw_handler creator fl mustexist p d value fmt vo = CeFailed st e ->
+    exists cs done rest a,
+      ce_coords (ce_name_kw p) (fst (ce_gather lit re_search nstr vstr kw_handler creator mustexist p d)) = Some cs /\
+      flat_map (set_actions fmt) cs = (done ++ a :: rest)%list /\
+      run_actions lit fl value (fst (sv_start vo (init_state d))) done (snd (sv_start vo (init_state d))) = SDone st /\
+      apply_action lit fl value (fst (sv_start vo (init_state d))) a st = RErr e.
+Proof. exact set_failed_clean. Qed.
+Print Assumptions C03_set_failure_end_to_end.
+
+(* ---- non-vacuity: {k: &a x, l: [*a, 1, 1], m: {k: y, z: *a}}; the two 1s are ONE object (oid 5) ---- *)
+Definition e3_re (_ _ : string) : outcome reres := Ok (RMatch false).
+Definition e3_kw (_ : bool) (_ : keyword) (_ : string) (_ : rval) (_ : ctx) : gen rval := gnil.
+Definition e3_cr (_ : list pseg) (_ : nat) (_ : rval) (_ : ctx) : gen rval := ([], Mut 0 PNone).
+Definition e3_nstr (_ : node) : string := "".
+Definition e3_vstr (_ : list rval) : string := "".
+Definition doc_e3 : node :=
+  NMap (ct 0) [ (sk 1 "k", xa); (sk 3 "l", NSeq (ct 4) [xa; iv 5 1; iv 5 1]);
+                (sk 6 "m", NMap (ct 7) [ (sk 1 "k", sk 8 "y"); (sk 9 "z", xa) ]) ].
+(* every hypothesis of C03_set_end_to_end on (path text, value, format); the gathered locations; the result *)
+Definition e3_check (text : string) (must : bool) (v : pyval) (fmt : vformat)
+                    (locs : list (option N * pyval)) (want : data) : Prop :=
+  match prepare 20 text with
+  | Ok (PPath segs) =>
+      let p := PPath segs in
+      let pcs := gathered no_lit e3_re e3_nstr e3_vstr e3_kw e3_cr p doc_e3 in
+      let s0 := sv_start None (init_state doc_e3) in
+      c01_frag p = true /\ specified (sem_doc no_lit e3_re e3_nstr true p doc_e3) = true /\
+      slices_last segs = true /\ ce_name_kw p = false /\
+      ce_plain (sem_doc no_lit e3_re e3_nstr false p doc_e3) = true /\ ce_doc_ok doc_e3 = true /\
+      acts_ok no_lit no_fl v (fst s0) (ce_acts fmt pcs) (snd s0) = true /\
+      opt_ok no_lit e3_re e3_nstr e3_vstr e3_kw e3_cr (fuel_for p) segs 0 (RNode doc_e3) root_ctx = true /\
+      map pc_pair pcs = locs /\
+      match ce_set no_lit e3_re e3_nstr e3_vstr e3_kw e3_cr no_fl must p doc_e3 v fmt None with
+      | CeDone st => erase (fst st) = want
+      | _ => False
+      end
+  | _ => False
+  end.
+
+(* l[1]: the shared int at l[1] and l[2] - only the addressed position changes (DESIGN #13) *)
+Example C03_end_to_end_nonvacuous_shared :
+  e3_check "l[1]" true (PStr "new") FBare [(Some 4%N, PInt 1)]
+    (DMap [ (PStr "k", DLeaf (PStr "x")); (PStr "l", DSeq [DLeaf (PStr "x"); DLeaf (PStr "new"); DLeaf (PInt 1)]);
+            (PStr "m", DMap [ (PStr "k", DLeaf (PStr "y")); (PStr "z", DLeaf (PStr "x")) ]) ]).
+Proof. vm_compute. repeat split. Qed.
+
+(* /m/z = 5 as INT (forward-slash notation, optional route): one location gathered, all three aliases of &a follow *)
+Example C03_end_to_end_nonvacuous_alias :
+  e3_check "/m/z" false (PInt 5) FInt [(Some 7%N, PStr "z")]
+    (DMap [ (PStr "k", DLeaf (PInt 5)); (PStr "l", DSeq [DLeaf (PInt 5); DLeaf (PInt 1); DLeaf (PInt 1)]);
+            (PStr "m", DMap [ (PStr "k", DLeaf (PStr "y")); (PStr "z", DLeaf (PInt 5)) ]) ]).
+Proof. vm_compute. repeat split. Qed.
+
+(* **[.=x]: a deep traversal with a search gathers the anchored node at its three places, in document order;
+   m.*: two locations of one mapping, the second an alias of a node outside it *)
+Example C03_end_to_end_nonvacuous_many :
+  e3_check "**[.=x]" true (PStr "new") FBare [(Some 0%N, PStr "k"); (Some 4%N, PInt 0); (Some 7%N, PStr "z")]
+    (DMap [ (PStr "k", DLeaf (PStr "new")); (PStr "l", DSeq [DLeaf (PStr "new"); DLeaf (PInt 1); DLeaf (PInt 1)]);
+            (PStr "m", DMap [ (PStr "k", DLeaf (PStr "y")); (PStr "z", DLeaf (PStr "new")) ]) ]) /\
+  e3_check "m.*" false (PStr "new") FBare [(Some 7%N, PStr "k"); (Some 7%N, PStr "z")]
+    (DMap [ (PStr "k", DLeaf (PStr "new")); (PStr "l", DSeq [DLeaf (PStr "new"); DLeaf (PInt 1); DLeaf (PInt 1)]);
+            (PStr "m", DMap [ (PStr "k", DLeaf (PStr "new")); (PStr "z", DLeaf (PStr "new")) ]) ]).
+Proof. vm_compute. repeat split. Qed.
+
+(* nothing selected: the Unmatched YAML Path error with mustexist; without it the creating query (Mut: C09) *)
+Example C03_end_to_end_unmatched :
+  match prepare 20 "nokey" with
+  | Ok p => ce_set no_lit e3_re e3_nstr e3_vstr e3_kw e3_cr no_fl true p doc_e3 (PInt 5) FInt None
+            = CeRead (Err (YPE Unmatched)) /\
+            ce_set no_lit e3_re e3_nstr e3_vstr e3_kw e3_cr no_fl false p doc_e3 (PInt 5) FInt None
+            = CeRead (Mut 0 PNone)
+  | _ => False
+  end.
+Proof. vm_compute. split; reflexivity. Qed.
+
+(* ======================================================================== *)
+(* HISTORIES given as PATHS (Model/Compose.v [ce_hop] / [ce_run_ops]; Proofs/EvalHistory.v): a step is
+   set_value(path, value, mustexist) / set_value on a missing straight path / delete_nodes(path), and every
+   Set / Delete step gathers its coordinates with the evaluator model on the document the previous step LEFT.
+
+   (1) REFINEMENT, no guard: a completed run is the run of History.run_ops (the subject of
+       C03_history_partial) over the plain history [ce_trace ops d], whose coordinates are the evaluator's own
+       answers, step by step.
+   (2) Hence, under C03's guard hist_ok evaluated on that trace (wf_attr / wf_docb where an operation starts;
+       acts_ok for every change; every coordinate of a delete locates a node), the run refines the plain-data
+       run: C03_history_partial.
+   (3) Under the per-step guards of C03_set_end_to_end, evaluated on the document of that moment
+       (ce_hist_guard, computable: C01's fragment and strict reading, slices last, no virtual result, ce_doc_ok;
+       for a step without mustexist: opt_ok and the path selects something), the coordinates of every Set /
+       Delete step are the locations of exactly the nodes sem_doc selects THERE, in order (ce_hist_sem).
+   What remains a guard and is not derived: that ce_doc_ok / wf_attr / wf_docb survive a step (they are
+   evaluated at every step, as in C03_history_partial), and del_all_located for Delete steps (C04's hypothesis). *)
+From YP Require Import EvalHistory.
+
+Theorem C03_history_end_to_end :
+  forall lit re_search nstr vstr kw_handler creator fl ops d k d',
+    ce_run_ops lit re_search nstr vstr kw_handler creator fl ops d k = ChDone d' ->
+    exists hops,
+      ce_trace lit re_search nstr vstr kw_handler creator fl ops d = Some hops /\
+      List.length hops = List.length ops /\
+      run_ops lit fl hops d k = HDone d' /\
+      (hist_ok lit fl hops d = true -> psteps (abs_ops lit fl hops d) (erase d) (erase d')) /\
+      (ce_hist_guard lit re_search nstr vstr kw_handler creator fl ops d = true ->
+       ce_hist_sem lit re_search nstr vstr kw_handler creator fl ops d).
+Proof. exact history_e2e. Qed.
+Print Assumptions C03_history_end_to_end.
+
+(* one step: what [ce_hist_sem] says at each position *)
+Theorem C03_history_step_end_to_end :
+  forall lit re_search nstr vstr kw_handler creator fl op d d',
+    ce_step_guard lit re_search nstr vstr kw_handler creator op d = true ->
+    ce_run_op lit re_search nstr vstr kw_handler creator fl op d = CsDone d' ->
+    ce_step_sem lit re_search nstr vstr kw_handler creator op d.
+Proof. exact step_sem. Qed.
+Print Assumptions C03_history_step_end_to_end.
+
+(* a failing history: the completed prefix is a run of History.run_ops over its trace (C03_history_failed_prefix
+   applies to it); the failing step is the model of the failing call on the document then *)
+Theorem C03_history_failed_end_to_end :
+  forall lit re_search nstr vstr kw_handler creator fl ops d k d' e n,
+    ce_run_ops lit re_search nstr vstr kw_handler creator fl ops d k = ChFailed d' e n ->
+    exists done op rest d0 hops,
+      ops = (done ++ op :: rest)%list /\ n = (k + List.length done)%nat /\
+      ce_trace lit re_search nstr vstr kw_handler creator fl done d = Some hops /\
+      run_ops lit fl hops d k = HDone d0 /\
+      ce_run_op lit re_search nstr vstr kw_handler creator fl op d0 = CsFailed d' e.
+Proof. exact run_ops_trace_failed. Qed.
+Print Assumptions C03_history_failed_end_to_end.
+
+(* non-vacuity on {k: &a x, l: [*a, 1, 1], m: {k: y, z: *a}}:
+   set l[1] := new (mustexist) / delete **[.=x] (the anchored node at its three places) /
+   create m.q[1] := 7 / set /m/k := 5 without mustexist.  Both guards hold along the run; the trace carries
+   the coordinates the evaluator gathered on the document of each moment; 8 plain-data steps. *)
+Definition e3_pp (t : string) : ppath := match prepare 20 t with Ok p => p | _ => PFail (YPE Generic) end.
+Definition hist_e3 : list ce_hop :=
+  [ CeSet true (e3_pp "l[1]") (PStr "new") FBare None;
+    CeDelete (e3_pp "**[.=x]");
+    CeCreate [SKey "m" (Some 6%N); SKey "q" None; SIdx 1] (PInt 7) FInt None;
+    CeSet false (e3_pp "/m/k") (PInt 5) FInt None ].
+Example C03_history_end_to_end_nonvacuous :
+  ce_hist_guard no_lit e3_re e3_nstr e3_vstr e3_kw e3_cr no_fl hist_e3 doc_e3 = true /\
+  match ce_run_ops no_lit e3_re e3_nstr e3_vstr e3_kw e3_cr no_fl hist_e3 doc_e3 0,
+        ce_trace no_lit e3_re e3_nstr e3_vstr e3_kw e3_cr no_fl hist_e3 doc_e3 with
+  | ChDone d', Some hops =>
+      hist_ok no_lit no_fl hops doc_e3 = true /\
+      hops = [ HSet [CNode (mkpc (Some 4%N) (PInt 1)) false] (PStr "new") FBare None;
+               HDelete [CNode (mkpc (Some 0%N) (PStr "k")) false; CNode (mkpc (Some 4%N) (PInt 0)) false;
+                        CNode (mkpc (Some 7%N) (PStr "z")) false];
+               HCreate [SKey "m" (Some 6%N); SKey "q" None; SIdx 1] (PInt 7) FInt None;
+               HSet [CNode (mkpc (Some 7%N) (PStr "k")) false] (PInt 5) FInt None ] /\
+      erase d' = DMap [ (PStr "l", DSeq [DLeaf (PStr "new"); DLeaf (PInt 1)]);
+                        (PStr "m", DMap [ (PStr "k", DLeaf (PInt 5));
+                                          (PStr "q", DSeq [DLeaf (PInt 7); DLeaf (PInt 7)]) ]) ] /\
+      List.length (abs_ops no_lit no_fl hops doc_e3) = 8%nat
+  | _, _ => False
+  end.
+Proof. vm_compute. repeat split. Qed.
